@@ -7,25 +7,27 @@ import re
 import subprocess
 
 HERE = os.path.dirname(os.path.dirname(os.path.abspath(__file__)))
-BASE = "00d3da0"
+# marker name -> (commit after which the round starts, last commit of the round or None for HEAD)
+ROUNDS = {"round4 fixes": ("00d3da0", "3fda9a8"), "round5 fixes": ("3fda9a8", None)}
 
 
 def main():
     kf = json.load(open(os.path.join(HERE, "known_findings.json")))
-    log = subprocess.run(["git", "-C", "/repo", "log", "--format=%h", "%s..HEAD" % BASE], capture_output=True, text=True).stdout.split()
-    later = [c[:7] for c in reversed(log)]
-    rows = []
-    for c in later:
-        for e in kf["fixed"]:
-            if e["commit"][:7] == c:
-                wit = e["line"].split(e["commit"], 1)[1].strip()
-                rows.append("| %s | %s (%s) | %s |" % (e["rule"], wit.replace("|", "\\|"), e["property"], e["commit"]))
-    table = "| rule | witness (property) | commit |\n|------|--------------------|--------|\n" + "\n".join(rows)
     p = os.path.join(HERE, "DESIGN.md")
     s = open(p).read()
-    s2 = re.sub(r"(<!-- BEGIN round4 fixes -->\n).*?(\n<!-- END round4 fixes -->)", lambda m: m.group(1) + table + m.group(2), s, flags=re.S)
-    open(p, "w").write(s2)
-    print("%d rows" % len(rows))
+    for marker, (base, end) in ROUNDS.items():
+        log = subprocess.run(["git", "-C", "/repo", "log", "--format=%h", "%s..%s" % (base, end or "HEAD")], capture_output=True, text=True).stdout.split()
+        later = [c[:7] for c in reversed(log)]
+        rows = []
+        for c in later:
+            for e in kf["fixed"]:
+                if e["commit"][:7] == c:
+                    wit = e["line"].split(e["commit"], 1)[1].strip()
+                    rows.append("| %s | %s (%s) | %s |" % (e["rule"], wit.replace("|", "\\|"), e["property"], e["commit"]))
+        table = "| rule | witness (property) | commit |\n|------|--------------------|--------|\n" + "\n".join(rows)
+        s = re.sub(r"(<!-- BEGIN %s -->\n).*?(\n<!-- END %s -->)" % (marker, marker), lambda m: m.group(1) + table + m.group(2), s, flags=re.S)
+        print("%s: %d rows" % (marker, len(rows)))
+    open(p, "w").write(s)
 
 
 if __name__ == "__main__":
